@@ -325,3 +325,6 @@ func (s *Sched) Threads() int { return len(s.threads) }
 // AddTimer registers a callback at d from now in virtual time (harness use: e.g. a
 // transport deadline). The callback runs in scheduler context.
 func AddTimer(d time.Duration, name string, f func()) { must().addTimer(d, name, f) }
+
+// ThreadID identifies the logical thread that is running (harness bookkeeping).
+func ThreadID() int { return must().cur.id }
